@@ -324,3 +324,35 @@ Proof.
   unfold complement. rewrite !Forall_forall. intros H r Hr. apply in_map_iff in Hr.
   destruct Hr as (r0 & <- & Hr0). rewrite map_length. now apply H.
 Qed.
+
+(* ------------------------------------------------------------------------------------------------ *)
+(* every permutation of a list is the list read through a permutation of its indices *)
+Lemma map_nth_seq {T} (l : list T) d : map (fun i => nth i l d) (seq 0 (length l)) = l.
+Proof.
+  induction l as [|x t IH]; simpl; [reflexivity|]. f_equal.
+  rewrite <- seq_shift, map_map. exact IH.
+Qed.
+
+Lemma Permutation_index {T} (d : T) (l l' : list T) :
+  Permutation l l' ->
+  exists p, Permutation (seq 0 (length l)) p /\ l' = map (fun i => nth i l d) p.
+Proof.
+  induction 1 as [|x l l' HP IH|x y l|l l' l'' HP1 IH1 HP2 IH2].
+  - exists []. split; constructor.
+  - destruct IH as (p & Hp & ->). exists (0 :: map S p). split.
+    + simpl. constructor. rewrite <- seq_shift. now apply Permutation_map.
+    + simpl. f_equal. now rewrite map_map.
+  - exists (1 :: 0 :: map (fun i => S (S i)) (seq 0 (length l))). split.
+    + simpl. rewrite <- !seq_shift, map_map. apply perm_swap.
+    + simpl. f_equal. f_equal. rewrite map_map. simpl. symmetry. apply map_nth_seq.
+  - destruct IH1 as (p1 & Hp1 & ->). destruct IH2 as (p2 & Hp2 & ->).
+    rewrite map_length in Hp2.
+    assert (Hlen : length p1 = length l) by (rewrite <- (Permutation_length Hp1); apply seq_length).
+    exists (map (fun i => nth i p1 0) p2). split.
+    + rewrite Hlen in Hp2. transitivity p1; [exact Hp1|].
+      rewrite <- (map_nth_seq p1 0) at 1. rewrite Hlen. now apply Permutation_map.
+    + rewrite map_map. apply map_ext_in. intros i Hi.
+      apply Permutation_sym in Hp2. apply (Permutation_in _ Hp2) in Hi. apply in_seq in Hi.
+      rewrite (nth_indep _ d (nth 0 l d)) by (rewrite map_length; lia).
+      apply (map_nth (fun i => nth i l d)).
+Qed.
